@@ -12,6 +12,11 @@ use std::task::Poll;
 /// Outbound bytes one transport may accept before the case is aborted as a runaway.
 pub const OUT_BUDGET: usize = 24 << 20;
 
+/// Write calls one transport may see before the case is aborted as a runaway (the longest legitimate
+/// case writes a 100 000 byte packet in single bytes with pend-first scheduling). A runaway client
+/// that emits millions of tiny packets would otherwise cost gigabytes in the event log and the view.
+pub const WRITE_BUDGET: u64 = 400_000;
+
 pub const WATCHDOG_MSG: &str = "HARNESS-WATCHDOG: count-based budget (transport polls / clock reads) exhausted";
 
 #[derive(Clone, Debug, PartialEq, Eq)]
@@ -126,7 +131,7 @@ impl Transport {
             n_write: 0,
             n_flush: 0,
             touches: 0,
-            budget: 5_000_000,
+            budget: 2_000_000,
             last_pending: PendingWhy::None,
             events,
         }
@@ -293,7 +298,7 @@ impl Write for SimIo {
             }
             let n = s.write_chunks.next(buf.len());
             let off = s.out.len();
-            if off > OUT_BUDGET {
+            if off > OUT_BUDGET || s.n_write > WRITE_BUDGET {
                 panic!("{}", WATCHDOG_MSG);
             }
             s.out.extend_from_slice(&buf[..n]);
